@@ -183,7 +183,7 @@ def build_harness(pid, cfg, result):
                 open(lock_dst, "wb").write(s)
                 open(lock_dst + ".repo", "wb").write(s)
     rc, out, dt = run(["cargo", "build", "--release", "--offline", "--bin", binname], cwd=HARNESS, timeout=3000)
-    result["cargo_build_s"] = round(dt, 2)
+    result["cargo_build_s"] = round(result.get("cargo_build_s", 0) + dt, 2)
     if rc != 0:
         errs = [l for l in out.splitlines() if l.startswith("error")][:6]
         result["broken"].append({"what": "harness-build", "name": f"harness/src/bin/{binname}.rs",
@@ -192,15 +192,38 @@ def build_harness(pid, cfg, result):
     return os.path.join(HARNESS, "target", "release", binname)
 
 
-def run_harness(pid, cfg, exe, tier, seed, result, extra_args=()):
+def merge_reports(a, b, tag):
+    """sum the counters of two harness reports, concatenate lists"""
+    if b is None:
+        return a
+    if a is None:
+        return b
+    out = dict(a)
+    for k in ("evaluations", "distinct_nontrivial", "model_comparisons", "model_disagreements",
+              "oracle_checks", "oracle_failures"):
+        out[k] = a.get(k, 0) + b.get(k, 0)
+    out["rule"] = (a.get("rule", "") + " || " + tag + ": " + b.get("rule", "")).strip(" |")
+    out["samples"] = (a.get("samples", []) + b.get("samples", []))[:16]
+    out["violations"] = a.get("violations", []) + b.get("violations", [])
+    out["notes"] = a.get("notes", []) + b.get("notes", [])
+    out["known_findings_seen"] = a.get("known_findings_seen", []) + b.get("known_findings_seen", [])
+    h = dict(a.get("histogram", {}))
+    for k, v in b.get("histogram", {}).items():
+        h[f"{tag}.{k}"] = v
+    out["histogram"] = h
+    out["exhaustive"] = bool(a.get("exhaustive")) and bool(b.get("exhaustive"))
+    return out
+
+
+def run_harness(pid, cfg, exe, tier, seed, result, extra_args=(), tag=""):
     os.makedirs(WORK, exist_ok=True)
-    out_file = os.path.join(WORK, f"{pid}.{tier}.result.json")
+    out_file = os.path.join(WORK, f"{pid}.{tag + '.' if tag else ''}{tier}.result.json")
     if os.path.exists(out_file):
         os.remove(out_file)
     env = {"VERIF_TIER": tier, "VERIF_SEED": str(seed), "VERIF_DIR": VERIF}
     timeout = cfg.get("timeout_s", {}).get(tier, 1500 if tier == "quick" else 7200)
     rc, out, dt = run([exe, "--out", out_file] + list(extra_args), cwd=VERIF, env=env, timeout=timeout)
-    result["harness_s"] = round(dt, 2)
+    result["harness_s"] = round(result.get("harness_s", 0) + dt, 2)
     if not os.path.exists(out_file):
         result["broken"].append({"what": "harness-run", "name": os.path.basename(exe),
                                  "detail": f"exit {rc}: " + out[-1200:]})
@@ -232,8 +255,9 @@ def setup():
             continue
         mods += [m for m in cfg.get("lean_modules", []) if m not in mods]
         exes += [e for e in cfg.get("lean_exes", []) if e not in exes]
-        if cfg.get("harness_bin") and cfg["harness_bin"] not in bins:
-            bins.append(cfg["harness_bin"])
+        for hb in (cfg.get("harness_bins") or ([cfg["harness_bin"]] if cfg.get("harness_bin") else [])):
+            if hb not in bins:
+                bins.append(hb)
     r = {"broken": []}
     translate("setup", r)
     rc, out, dt = run(["lake", "build"] + mods + exes, cwd=LEAN, timeout=7200)
@@ -268,7 +292,13 @@ def main():
     if "--replay" in args:
         path = args[args.index("--replay") + 1]
         r = {"broken": []}
-        exe = build_harness(pid, cfg, r)
+        rb = cfg.get("harness_bin") or (cfg.get("harness_bins") or [None])[0]
+        try:
+            rj = json.load(open(path))
+            rb = (rj.get("replay") or {}).get("harness_bin") or rj.get("harness_bin") or rb
+        except Exception:  # noqa: BLE001
+            pass
+        exe = build_harness(pid, dict(cfg, harness_bin=rb), r)
         if exe is None:
             print(json.dumps(r["broken"], indent=1))
             sys.exit(2)
@@ -285,8 +315,13 @@ def main():
             result["leanchecker_s"] = round(result.get("leanchecker_s", 0) + dt, 2)
             if rc != 0:
                 result["broken"].append({"what": "proof", "name": m, "detail": "leanchecker: " + out[-800:]})
-    exe = build_harness(pid, cfg, result)
-    report = run_harness(pid, cfg, exe, tier, seed, result) if exe else None
+    # one harness binary, or several whose reports are merged (e.g. C02: syntax half + evaluation half)
+    bins = cfg.get("harness_bins") or ([cfg["harness_bin"]] if cfg.get("harness_bin") else [])
+    report = None
+    for b in bins:
+        exe = build_harness(pid, dict(cfg, harness_bin=b), result)
+        r = run_harness(pid, dict(cfg, harness_bin=b), exe, tier, seed, result, tag=b) if exe else None
+        report = merge_reports(report, r, b)
 
     # ---------------------------------------------------------------- verdict
     os.makedirs(os.path.join(VERIF, "replay"), exist_ok=True)
